@@ -229,10 +229,9 @@ def gen_plant(rng, book, force):
     road, sheet = book["road"], book["target"]
     if road.startswith("empty-context"):
         form = force.get("form") or rng.choice(["expr", "expr-in-text", "stmt-if", "filter-upper", "stmt-for", "native", "stmt-set"])
-        defined = False if "defined" not in force else force["defined"]
         # a cell read with the empty context: every name is unknown there
         return dict(sheet=None, column=road, form=form, ref=rng.choice(["nmae", "name", "x"]), way="empty-context", guard="none",
-                    defined=defined and False, site="cell")
+                    defined=False, site="cell")
     defined = force["defined"] if "defined" in force else (rng.random() < 0.18)
     column = force.get("column") or rng.choice(COLUMNS)
     if column.startswith("block-") and (sheet == "blkB" or book["main_mode"] == "tsp"):
